@@ -153,6 +153,16 @@ Theorem C09_cmp_new_extend : forall s t1 t2, bytes_ok s -> 0 <= t1 <= t2 -> t2 <
 Proof. exact Cmp_New_extend. Qed.
 Print Assumptions C09_cmp_new_extend.
 
+(** a whole string encodes as itself plus 0xff, and on whole strings Cmp is Go's string order *)
+Theorem C09_new_whole : forall s, bytes_ok s -> New s 0 (8 * zlen s) = Some (s ++ [255]).
+Proof. exact New_whole. Qed.
+Print Assumptions C09_new_whole.
+
+Theorem C09_cmp_whole : forall x y, bytes_ok x -> bytes_ok y ->
+  Cmp (x ++ [255]) (y ++ [255]) = Some (cmp_sign (bytes_cmp x y)).
+Proof. exact Cmp_whole. Qed.
+Print Assumptions C09_cmp_whole.
+
 (** * WIDENED: the int32 arithmetic of New / Len made explicit (Model/Bitstr32.v; the
     protocol operations run this model) *)
 
